@@ -247,6 +247,7 @@ def r13_lookup_never_iterates_its_caches(ctx):
 
 
 RULES = [
+    ("C19.R17", "P1", lambda ctx: r17_lookup_path_rebinds_nothing(ctx), "the lookup path assigns no attribute of the table (intermediate results stay local)"),
     ("C19.R16", "P1", lambda ctx: r16_generator_gets_no_table_state(ctx), "the dependent generator is handed no long-lived mutable object of the table"),
     ("C19.R13", "P1", r13_lookup_never_iterates_its_caches, "the lookup path never iterates over a table it fills"),
     ("C19.R6", "P1", r6, "bookkeeping read by concurrent lookups is written before the entry that makes them possible"),
@@ -305,3 +306,26 @@ def r16_generator_gets_no_table_state(ctx):
         bad is None,
         (f"`self.{bad[1]}` (created once per table as `{short(bad[2], 40)}`) is handed to the generator, which fills it while generating: two threads resolving different argument types at once write their handlers and checks into the same namespace, and a dispatcher is built with another call's handlers" if bad else ""),
     )
+
+
+def r17_lookup_path_rebinds_nothing(ctx):
+    """A resolution keeps what it is working on in local variables: no method on the lookup path of the tables assigns
+    an attribute of the table (element stores into the caches are the only writes) - an attribute is shared by every
+    resolution running at the same time."""
+    repo = ctx.repo
+    n = 0
+    for cls in (A.typemap(repo), A.multimap(repo)):
+        for m in lookup_path(ctx, cls):
+            rv = recv_name(m)
+            ctx.touch(m)
+            n += 1
+            rebinds = [w for w in func_writes(m.node, rv) if w.kind == "rebind"]
+            ctx.ob(
+                f"{m.key}:rebinds-nothing",
+                m.loc(rebinds[0].stmt) if rebinds else m.loc(),
+                f"{m.name}() (on the lookup path) assigns no attribute of the table",
+                not rebinds,
+                (f"`{short(rebinds[0].stmt, 50)}` parks an intermediate result of this resolution on the table: a second thread resolving other argument types overwrites it before it is read back, and the first thread files the other call's methods (and call_next links) under its own key - for good" if rebinds else ""),
+            )
+    if n < 4:
+        raise AnalysisError("expected the lookup paths of both tables")
